@@ -57,21 +57,33 @@ EMPair(a,b) == {a.dim, b.dim} = {"Qm","Qc"} \/ b.dim \in a.em \/ a.dim \in b.em
 \* q quantity, a array(2), az zero-filled unyt array(2), c column (2,1) unyt array,
 \* bs bare number, ba bare ndarray, bl bare list, z bare 0, za zeros(2), zl [0,0],
 \* lq list of two quantities of one unit, lqm list of two quantities of different dimensions
-UnytKinds == {"q","a","az","c"}
+\* value classes (class ids: TLC does not hold the floats; T and P only need "is every entry exactly zero?"):
+\*   ts 1e-20, ds 5e-324 (denormal), ns NaN, is inf: bare numbers that are NOT zero;  nz -0.0: IS zero
+\*   ta [1e-17,1e-20], tm [1e-17, 0.0] (some exact zeros, some tiny), t32 float32 [1e-8,1e-8] (below float32 eps),
+\*   tl list [1e-20, 0.0], na [nan, inf]: bare sequences that are NOT all zero;  nza [-0.0, 0.0]: IS all zero
+\*   tq 1.6e-19 <unit>, tqa [1.6e-19, 0.0] <unit>: unit-carrying operands with tiny values (never exempt)
+UnytKinds == {"q","a","az","c","tq","tqa"}
+QKinds == {"q","tq"}
+AKinds == {"a","az","c","tqa"}
 ListQ == {"lq","lqm"}
-BareNumber == {"bs","z"}
-BareZero == {"z","za","zl"}
-BareKinds == {"bs","ba","bl","z","za","zl"}
+BareNumber == {"bs","z","ts","ds","nz","ns","is"}
+BareZero == {"z","za","zl","nz","nza"}
+BareKinds == {"bs","ba","bl","z","za","zl","ts","ds","nz","ns","is","ta","tm","t32","tl","nza","na"}
+SpecialKinds == {"ts","ds","nz","ns","is","ta","tm","t32","tl","nza","na","tq","tqa"}
+OpaqueKinds == SpecialKinds \ {"nz","nza"}          \* numbers not held by the model: results are not compared
+ZeroKinds == {"z","za","zl","az","nz","nza"}          \* every entry is exactly zero (-0.0 is zero)
 AllKinds == UnytKinds \cup ListQ \cup BareKinds
-Shape(k) == IF k \in {"q","bs","z"} THEN "s" ELSE IF k = "c" THEN "c" ELSE "v"
+Shape(k) == IF k \in {"q","bs","z","ts","ds","nz","ns","is","tq"} THEN "s" ELSE IF k = "c" THEN "c" ELSE "v"
 BaseVals(pos) == IF pos = 0 THEN <<R(3), <<5,2>>>> ELSE <<R(2), R(5)>>
-Vals(k,pos) == IF k = "z" THEN <<RZero>> ELSE IF k \in {"za","zl","az"} THEN <<RZero,RZero>>
+Vals(k,pos) == IF k \in ZeroKinds THEN (IF Shape(k) = "s" THEN <<RZero>> ELSE <<RZero,RZero>>)
                ELSE IF Shape(k) = "s" THEN <<BaseVals(pos)[1]>> ELSE BaseVals(pos)
 Operand(k,n,pos) == [kind |-> k, unit |-> IF k \in UnytKinds \cup ListQ THEN U(n) ELSE Dimless,
-                     isunyt |-> k \in UnytKinds, sh |-> Shape(k), vals |-> Vals(k,pos), mixed |-> k = "lqm", noadopt |-> FALSE]
+                     isunyt |-> k \in UnytKinds, sh |-> Shape(k), vals |-> Vals(k,pos), mixed |-> k = "lqm", noadopt |-> FALSE,
+                     zero |-> k \in ZeroKinds, opq |-> k \in OpaqueKinds]
 \* the repaired zero scan (fixes/C01-zero-unyt-array.patch): a unyt_array never adopts
 OperandR(k,n,pos) == [Operand(k,n,pos) EXCEPT !.noadopt = k \in UnytKinds]
-AllZero(o) == ~o.noadopt /\ \A i \in DOMAIN o.vals : RIsZero(o.vals[i])
+\* np.count_nonzero(operand) == 0: exact zeros only, however small the other entries are
+AllZero(o) == ~o.noadopt /\ o.zero
 \* the dimension the property sees: bare data is dimensionless, a mixed list has no single dimension
 PDim(k,n) == IF k = "lqm" THEN "mixed" ELSE IF k \in UnytKinds \cup ListQ \cup {"u"} THEN U(n).dim ELSE "1"
 
@@ -143,7 +155,8 @@ Apply(op, form, o0, o1) ==
      [] OTHER -> [vk |-> "opaque", v |-> <<>>]
 ScaleVals(o, r) == [o EXCEPT !.vals = [i \in DOMAIN o.vals |-> RMul(o.vals[i], r)]]
 Finish(op, form, unitname, o0, o1) ==
-   LET r == Apply(op, form, o0, o1) IN
+   LET r0 == Apply(op, form, o0, o1)
+       r == IF o0.opq \/ o1.opq THEN [vk |-> "opaque", v |-> <<>>] ELSE r0 IN
    IF op \in BoolOps THEN [k |-> "bool", exc |-> "", unit |-> "", vk |-> r.vk, v |-> r.v]
    ELSE IF op = "divmod" THEN Tuple(unitname)
    ELSE [k |-> "val", exc |-> "", unit |-> unitname, vk |-> r.vk, v |-> r.v]
@@ -200,13 +213,13 @@ Mirror(op) == CASE op = "less" -> "greater" [] op = "greater" -> "less" [] op = 
                 [] op = "greater_equal" -> "less_equal" [] OTHER -> op
 CompareOps == {"less","less_equal","greater","greater_equal","equal","not_equal"}
 \* divmod builds both results with the binary return class: a quantity class with a non-scalar result cannot be built
-RetQuantity(o0, o1) == (o0.kind = "q" /\ o1.kind \notin {"a","az","c"}) \/ (o1.kind = "q" /\ o0.kind \notin {"a","az","c"})
+RetQuantity(o0, o1) == (o0.kind \in QKinds /\ o1.kind \notin AKinds) \/ (o1.kind \in QKinds /\ o0.kind \notin AKinds)
 \* call forms: call | outer | operator | iop | out | at | reduce_initial
 UfOutcome(op, form, o0, o1) ==
   IF form = "at" THEN Raise("RuntimeError")                 \* three inputs
   ELSE IF form = "reduce_initial" THEN ValO(o0.unit.name)   \* unary branch: initial= is handed to NumPy unseen
   \* array <op> quantity: ndarray's rich comparison defers to the subclass instance on the right, which evaluates the mirrored ufunc
-  ELSE IF form = "operator" /\ op \in CompareOps /\ o0.kind \in {"a","az","c"} /\ o1.kind = "q"
+  ELSE IF form = "operator" /\ op \in CompareOps /\ o0.kind \in AKinds /\ o1.kind \in QKinds
   THEN EqWrap(Mirror(op), form, o1, o0)
   ELSE LET r == EqWrap(op, form, o0, o1) IN
        IF op = "divmod" /\ r.k = "tuple" /\ RetQuantity(o0, o1) /\ Bc(o0.sh, o1.sh) # "s" THEN Raise("RuntimeError")
